@@ -96,7 +96,8 @@ func families(thorough bool) []family {
 	f1.alpha = append(f1.alpha, event{k: kFIN}, event{k: kRST}, event{k: kRST, a: 0, b: 1}, event{k: kRST, a: 2, b: 1})
 	f1.alpha = append(f1.alpha, flush...)
 	// F2: two connections x two directions, 2-byte streams
-	f2 := family{name: "two-connections", n: 2, depth: 4, limits: [][2]int{{0, 0}, {1, 0}, {0, 2}}}
+	// (both limits at once, the total one being the tighter: each half connection stays below its own limit)
+	f2 := family{name: "two-connections", n: 2, depth: 4, limits: [][2]int{{0, 0}, {1, 0}, {0, 2}, {2, 1}}}
 	for c := 0; c < 2; c++ {
 		for d := 0; d < 2; d++ {
 			f2.alpha = append(f2.alpha, event{k: kSYN, c: c, d: d})
@@ -113,7 +114,7 @@ func families(thorough bool) []family {
 	f3.alpha = append(f3.alpha, event{k: kFIN}, event{k: kRST}, event{k: kRST, a: 0, b: 1}, event{k: kFO, rel: 0}, event{k: kFO, rel: 1})
 	if thorough {
 		f1.depth, f2.depth = 6, 5
-		f2.limits = lim4
+		f2.limits = append(append([][2]int(nil), lim4...), [2]int{2, 1}, [2]int{3, 2})
 	}
 	return []family{f1, f2, f3}
 }
